@@ -18,7 +18,7 @@ OBLIGATIONS = [
     "C11/P_nonvacuous.v",
 ]
 REFUTATIONS = ["C11/P_refuted.v"]
-PROOF_MODULES = []   # compiled by hand until listed in coq/_CoqProject (see the report)
+PROOF_MODULES = ["C11/SubsSound2.vo", "C11/SubsProofs.vo", "C11/Examples.vo"]
 
 BIG = 6000
 KINDS = ["subs"] * 6 + ["xreplace"] * 2 + ["msubs", "ssubs"]
